@@ -205,18 +205,52 @@ def check_sizes(P, ctx):
           N.canon(ev['lhs'])[0] == 'idx' and N.canon(ev['lhs'])[1] == H]
     ok = ok and len(st) == 1 and N.canon(st[0]['lhs'])[2] == ('int', 0) and util.const_int(st[0]['rhs']) == 0
     ctx.check(ok, rule, 'String_Clear', site(fn), 'one byte is requested and the terminator is stored at index 0')
-    # --- String_Format_To (Linux branch), evaluated: measured on a copy of the va_list; at least pos+length+1 bytes requested; the buffer
-    # pointer updated; written at offset pos of the new buffer with the original format and list; the write's count returned
+    # --- String_Format_To (Linux branch), evaluated on byte memory: whatever route the text takes (measured first and then written in
+    # place, or formatted into a scratch buffer and copied), afterwards the buffer the String owns holds the old prefix [0, pos), the
+    # complete formatted text at [pos, pos+length) and a terminator behind it, all inside what was requested from realloc; the formatted
+    # length is returned; the caller's va_list is consumed at most once.  vsnprintf(dst, n, ...) is modelled as C defines it: it returns
+    # the full length and stores at most n-1 characters plus a terminator.
     from . import cint
     fn = P.fn('String_Format_To')
     ctx.fn(fn)
     bad, unsup = None, None
     OLD, NEW, FMT, VA, VACOPY = 700000, 800000, 7200, 77, 78
-    for pos in (0, 3, 40):
-        for ln in (0, 5):
-            ev_ = []
+    import re as _re
+    lens = {0, 5, 63, 64, 65, 200}
+    for n_ in P.cfg(fn).live():                   # lengths around the size of every local buffer of the function
+        d_ = n_.get('decl')
+        m_ = _re.match(r'^.*\[(\d+)\]$', str(d_.get('type') or '').strip()) if d_ else None
+        if m_ and 1 < int(m_.group(1)) <= 4096:
+            lens |= {int(m_.group(1)) - 1, int(m_.group(1)), int(m_.group(1)) + 1}
+    for pos in (0, 3):
+        for ln in sorted(lens):
+            st = {'req': None, 'memory': {}, 'used': {VA: 0, VACOPY: 0}, 'buf': NEW if False else OLD, 'oob': None}
 
-            def call(nm, e, it, ev_=ev_, ln=ln):
+            def put(dst, i, v, it):
+                if isinstance(dst, tuple) and dst[0] == 'ep':
+                    it.atoms[('elem', dst[1], dst[2] + i, None)] = v
+                elif isinstance(dst, int) and dst != 0:
+                    if st['req'] is not None and NEW <= dst + i < NEW + 4096 and dst + i >= NEW + st['req']:
+                        st['oob'] = st['oob'] or (dst + i - NEW)
+                    st['memory'][dst + i] = v
+
+            def fetch(src, i, it):
+                if isinstance(src, tuple) and src[0] == 'ep':
+                    return it.atoms.get(('elem', src[1], src[2] + i, None), 'undefined')
+                return st['memory'].get(src + i, 'undefined')
+
+            def fmt_into(dst, n, lst, it, bounded):
+                if lst not in st['used']:
+                    raise cint.NoEval('formats with something that is not the argument list or its copy')
+                st['used'][lst] += 1
+                k = ln if not bounded else (min(ln, n - 1) if n > 0 else 0)
+                if dst != 0 and (not bounded or n > 0):
+                    for i in range(k):
+                        put(dst, i, ('txt', i), it)
+                    put(dst, k, 0, it)
+                return ln
+
+            def call(nm, e, it, ln=ln):
                 if nm in ('__builtin_va_copy', 'va_copy'):
                     if it.ev(e[2][1]) != VA:
                         raise cint.NoEval('va_copy of something else')
@@ -224,43 +258,79 @@ def check_sizes(P, ctx):
                     return 0
                 if nm in ('__builtin_va_end', 'va_end'):
                     return 0
-                if nm in ('vsnprintf', '_vscprintf'):
-                    a_ = [it.ev(x) for x in e[2]]
-                    ev_.append(('measure', a_))
+                if nm == 'vsnprintf':
+                    d_, n_, f_, l_ = (it.ev(x) for x in e[2])
+                    if f_ != FMT:
+                        raise cint.NoEval('another format')
+                    return fmt_into(d_, n_, l_, it, True)
+                if nm == '_vscprintf':
+                    st['used'][it.ev(e[2][1])] += 1
                     return ln
+                if nm == 'vsprintf':
+                    d_, f_, l_ = (it.ev(x) for x in e[2])
+                    if f_ != FMT:
+                        raise cint.NoEval('another format')
+                    return fmt_into(d_, None, l_, it, False)
                 if nm == 'header':
                     return ('ep', 'hdr', 0)
                 if nm == 'realloc':
-                    ev_.append(('realloc', it.ev(e[2][0]), it.ev(e[2][1])))
+                    if it.ev(e[2][0]) != st['buf']:
+                        raise cint.NoEval('realloc of something that is not the buffer')
+                    st['req'] = it.ev(e[2][1])
+                    st['buf'] = NEW
+                    for i in range(pos):
+                        st['memory'][NEW + i] = ('old', i)            # realloc keeps the old contents
                     return NEW
-                if nm == 'vsprintf':
-                    ev_.append(('write', [it.ev(x) for x in e[2]]))
-                    return ln
+                if nm in ('memcpy', 'memmove', 'strncpy'):
+                    d_, s_, n_ = (it.ev(x) for x in e[2])
+                    for i in range(n_):
+                        put(d_, i, fetch(s_, i, it), it)
+                    return d_
+                if nm == 'strcpy':
+                    d_, s_ = (it.ev(x) for x in e[2])
+                    i = 0
+                    while i < 5000:
+                        v_ = fetch(s_, i, it)
+                        put(d_, i, v_, it)
+                        if v_ == 0 or v_ == 'undefined':
+                            break
+                        i += 1
+                    return d_
                 raise cint.NoEval('call %s' % nm)
+
+            def rd(a, it):
+                return st['memory'].get(a, 'undefined') if isinstance(st['memory'].get(a, 'undefined'), int) else 255
+
+            def wr(a, v, w, it):
+                put(a, 0, v, it)
             atoms = {('global', 'NULL'): 0, ('elem', 'self', 0, 'val'): OLD, ('elem', 'hdr', 0, 'alloc'): P.enums.get('AllocHeap', 1)}
-            it = cint.CInt(P, fn, atoms=atoms, call=call)
+            it = cint.CInt(P, fn, atoms=atoms, call=call, mem=rd, memw=wr, strict=True, max_steps=4000)
             it.atoms = atoms
             r = it.run([('ep', 'self', 0), pos, FMT, VA])
             label = 'position %d, formatted length %d' % (pos, ln)
             if r[0] == 'stuck':
                 unsup = unsup or '%s: %s' % (label, r[1])
                 continue
-            meas = [x for x in ev_ if x[0] == 'measure']
-            rea = [x for x in ev_ if x[0] == 'realloc']
-            wri = [x for x in ev_ if x[0] == 'write']
+            buf = atoms.get(('elem', 'self', 0, 'val'))
             msg = None
-            if len(meas) != 1 or meas[0][1][-2:] != [FMT, VACOPY] or (len(meas[0][1]) == 4 and meas[0][1][:2] != [0, 0]):
-                msg = 'the length is not measured once with (NULL, 0, fmt, a copy of the list): %s' % (meas,)
-            elif len(rea) != 1 or rea[0][1] != OLD or rea[0][2] < pos + ln + 1:
-                msg = 'requests %s bytes for the buffer; position + length + terminator is %d' % ([x[2] for x in rea], pos + ln + 1)
-            elif atoms.get(('elem', 'self', 0, 'val')) != NEW:
-                msg = 'the String does not take over the reallocated buffer'
-            elif len(wri) != 1 or wri[0][1] != [NEW + pos, FMT, VA]:
-                msg = 'writes with %s; expected (new buffer + %d, fmt, the original list)' % (wri, pos)
-            elif ev_.index(rea[0]) > ev_.index(wri[0]) or ev_.index(meas[0]) > ev_.index(rea[0]):
-                msg = 'order of measuring, reallocating and writing: %s' % [x[0] for x in ev_]
-            elif not (r[0] == 'ret' and r[1] == ln):
-                msg = 'returns %s, the write reported %d characters' % (r[1], ln)
+            if r[0] != 'ret':
+                msg = 'does not return'
+            elif buf != NEW or st['req'] is None:
+                msg = 'the String does not end up owning a buffer obtained from realloc'
+            elif st['req'] < pos + ln + 1:
+                msg = 'requests %d bytes for the buffer; position + length + terminator is %d' % (st['req'], pos + ln + 1)
+            elif st['oob'] is not None:
+                msg = 'writes at offset %d of a buffer of %d bytes' % (st['oob'], st['req'])
+            else:
+                got = [st['memory'].get(NEW + i, 'undefined') for i in range(pos + ln + 1)]
+                want = [('old', i) for i in range(pos)] + [('txt', i) for i in range(ln)] + [0]
+                if got != want:
+                    k = [i for i in range(len(want)) if got[i] != want[i]][0]
+                    msg = 'the buffer does not hold the formatted text: byte %d is %s, expected %s' % (k, got[k], want[k] if want[k] != 0 else 'the terminator')
+                elif r[1] != ln:
+                    msg = 'returns %s, %d characters were written' % (r[1], ln)
+                elif st['used'][VA] > 1:
+                    msg = 'the caller\'s argument list is consumed %d times' % st['used'][VA]
             if msg and bad is None:
                 bad = '%s: %s' % (label, msg)
     if unsup and not bad:
